@@ -37,7 +37,8 @@ Definition c_kf_upd (H : M O m n) (pred : kfG) (nus : list (M O m 1)) (R : M O m
 Definition c_kf_lik (nus : list (M O m 1)) (pys : list (M O m m)) : list (T (sc O)) :=
   map (fun p => density (fst p) (mzero m 1) (snd p)) (combine nus pys).
 
-Definition c_kf_step (H : M O m n) := kf_step c_kf_px (c_kf_upd H).
+Definition c_kf_step (H : M O m n) :=
+  @kf_step kfG (M O m 1) (list (M O n 1)) (list (M O m 1)) (list (M O m 1)) (M O m m) (list (M O m m)) c_kf_px (c_kf_upd H).
 Definition c_kf_get_lik := kf_get_lik c_kf_lik.
 End KFInst.
 Arguments c_kf_step {O n m W}. Arguments c_kf_get_lik {O m}. Arguments lin_mm {O n m}.
